@@ -5,6 +5,7 @@
 use itertools::Itertools;
 
 use crate::{
+    constant::WORD_SIZE_BITS,
     tc::{lift::Lift, state::TypeCheckerState},
     vm::value::{PackedSpan, RuntimeBoxedVal, RSV, RSVD},
 };
@@ -90,12 +91,13 @@ impl Lift for PackedEncoding {
                 .sorted_by_key(|elem| elem.offset)
                 .collect();
 
-            // To be valid, spans must not overlap
+            // To be valid, spans must not overlap, and must lie inside the word
             let mut spans_are_valid = true;
             let mut last_position = 0;
             for PackedSpan { offset, size, .. } in &spans {
                 spans_are_valid = spans_are_valid && last_position <= *offset;
                 last_position = offset + size;
+                spans_are_valid = spans_are_valid && last_position <= WORD_SIZE_BITS;
             }
 
             // In order to prevent issues with inferring types for unused portions of a
